@@ -662,5 +662,5 @@ def assemble(unit_path, probe=False, no_hints=False, extra_requires=None, extra_
 
 
 if __name__ == "__main__":
-    text, info = assemble(sys.argv[1])
+    text, info = assemble(sys.argv[1], probe="--probe" in sys.argv[2:])
     sys.stdout.write(text)
